@@ -331,6 +331,21 @@ def minimise_and_report(prop, seed, tier, vres):
           "trace": final.get("trace", []), "tree": final.get("tree")}
     path.write_text(json.dumps(js, indent=1, default=str))
     ok, txt = confirm_fresh(path, sig)
+    if not ok and tree0 is not None:
+        # the code under test may itself be non-repeatable (unseeded
+        # randomness, dependence on heap content): fall back to the recorded,
+        # unminimised run and allow a few attempts; the replay file says so
+        js["tree"] = tree0
+        js["nondeterministic"] = True
+        js["note"] = ("the minimised run did not fail again in a fresh "
+                      "interpreter; this is the unminimised run, which fails "
+                      "with the same signature in some executions only: the "
+                      "code under test is not repeatable")
+        path.write_text(json.dumps(js, indent=1, default=str))
+        for attempt in range(4):
+            ok, txt = confirm_fresh(path, sig)
+            if ok:
+                break
     if not ok:
         return None, f"replay not confirmed in a fresh interpreter: {txt}"
     return path, final
